@@ -27,6 +27,7 @@ import traceback
 
 ROOT = os.path.dirname(os.path.dirname(os.path.abspath(__file__)))
 MAX_KEEP_PER_SIG = 4
+_REAL_STDERR = None
 
 
 def h64(obj):
@@ -77,6 +78,29 @@ class Result:
         keep.append(rec)
         keep.sort(key=lambda r: case_size(r["case"]))
         del keep[MAX_KEEP_PER_SIG:]
+
+
+class CaseTimeout(Exception):
+    """Raised inside a case when the code under test does not return."""
+
+
+class time_limit:
+    """with time_limit(10): ...   (SIGALRM based; worker processes only)"""
+
+    def __init__(self, seconds):
+        self.seconds = seconds
+
+    def _fire(self, signum, frame):
+        raise CaseTimeout()
+
+    def __enter__(self):
+        self.old = signal.signal(signal.SIGALRM, self._fire)
+        signal.alarm(self.seconds)
+
+    def __exit__(self, *exc):
+        signal.alarm(0)
+        signal.signal(signal.SIGALRM, self.old)
+        return False
 
 
 class Deadline:
@@ -147,7 +171,6 @@ def match_finding(sig, findings):
 # -- worker side -------------------------------------------------------------
 def _worker(args):
     modname, shard, budget = args
-    faulthandler.enable()
     try:
         mod = importlib.import_module(modname)
         shard = dict(shard)
@@ -164,6 +187,13 @@ def _init_worker():
     signal.signal(signal.SIGINT, signal.SIG_IGN)
     devnull = os.open(os.devnull, os.O_RDONLY)
     os.dup2(devnull, 0)
+    # The code under test logs errors straight to stderr (ConsolePrinter);
+    # keep the real stderr for faulthandler only.
+    global _REAL_STDERR
+    _REAL_STDERR = os.fdopen(os.dup(2), "w")
+    faulthandler.enable(file=_REAL_STDERR)
+    sink = os.open(os.devnull, os.O_WRONLY)
+    os.dup2(sink, 2)
 
 
 # -- main --------------------------------------------------------------------
